@@ -391,6 +391,19 @@ def native_edge_part(run, tier):
                 if pv == 0.5 and special is None:
                     continue
                 jobs.append(("pad_value %s, image with %s pixels, kernel %s dilation %s stride %s padding %s" % (pv, special, k, d, s_, p), x, k, d, s_, p, pv))
+    # (c) views with unusual strides: NumPy calls an array C-contiguous whatever the strides of its extent-1 axes are (x[..., None] has stride 0 there, a transposed row image
+    #     a stride of a whole row), broadcast views repeat one buffer, Fortran order and sliced views -- with and without padding, which is what normalises strides by copying
+    base = rng.randn(2, 2, 5)
+    row = rng.randn(2, 2, 1, 5)
+    views = [("x[..., None] (one pixel wide, last stride 0)", base[..., None], (2, 1)), ("row image transposed to a column image", row.transpose(0, 1, 3, 2), (2, 1)),
+             ("x[:, :, None, :] (one pixel high)", base[:, :, None, :], (1, 2)), ("column image transposed to a row image", row.transpose(0, 1, 3, 2).transpose(0, 1, 3, 2).swapaxes(2, 3).swapaxes(2, 3), (1, 2)),
+             ("broadcast of one row to five", np.broadcast_to(rng.randn(2, 2, 1, 4), (2, 2, 5, 4)), (2, 2)), ("Fortran order", np.asfortranarray(rng.randn(2, 2, 4, 3)), (2, 2)),
+             ("every second row and column of a larger image", rng.randn(2, 2, 8, 6)[:, :, ::2, ::2], (2, 2)), ("reversed rows", rng.randn(2, 2, 4, 3)[:, :, ::-1, :], (2, 2))]
+    for vname, xv, k in views:
+        for p in ((0, 0), (1, 0), (0, 1)):
+            if p[0] > k[0] // 2 + 1 or p[1] > k[1] // 2 + 1:
+                continue
+            jobs.append(("view: %s, kernel %s, padding %s" % (vname, k, p), xv, k, (1, 1), (1, 1), p, 0.5))
     for label, x, k, d, s_, p, pv in jobs:
         run.rt(("native-edge", label))
         try:
